@@ -1,39 +1,101 @@
 #!/usr/bin/env python3
-"""Collect verified seeded mutants into /verif/seeded/<id>/ (patch.diff, demo, meta.json)."""
-import json, os, re, shutil, sys
-staged = "/tmp/seed/staged"
-ver = {}
-for l in open("/tmp/seed/verify-all.txt"):
-    m = re.match(r"(C\d+) (m\d+): tests\[(.*?)\] demo_with_mutant_exit=(\d+) demo_clean_exit=(\d+)", l)
-    if m:
-        ver[f"{m.group(1)}-{m.group(2)}"] = {"tests_with_mutant": m.group(3), "demo_exit_with_mutant": int(m.group(4)), "demo_exit_on_clean_tree": int(m.group(5))}
-det = {}
-for l in open("/tmp/seed/results-all.txt"):
-    name, rest = l.strip().split(":", 1)
-    d = det.setdefault(name, {})
-    for m in re.finditer(r"(C\d+)=exit(\d)\[(.*?)\]", rest):
-        d[m.group(1)] = {"exit": int(m.group(2)), "rules": [x for x in m.group(3).split(",") if x]}
-out = "/verif/seeded"
-os.makedirs(out, exist_ok=True)
-for name in sorted(os.listdir(staged)):
-    v = ver.get(name)
-    if not v or v["demo_exit_with_mutant"] == 0 or v["demo_exit_on_clean_tree"] != 0 or " 0 failed" not in v["tests_with_mutant"]:
-        print("skip (not verified)", name, v)
-        continue
-    d = os.path.join(out, name)
-    shutil.rmtree(d, ignore_errors=True)
-    os.makedirs(d)
-    for f in os.listdir(os.path.join(staged, name)):
-        if f in ("verify.log", "checks", "test.log", "test.txt") or os.path.isdir(os.path.join(staged, name, f)):
+"""Collect verified seeded changes into /verif/seeded/<id>/ (patch.diff, demo, meta.json) and the behaviour-preserving
+patches into /verif/seeded/benign/<id>/, together with the detection results of bin/mutants.sh.
+
+usage: collect_seeded.py <results files...>   (staging directories are fixed below; they live under /tmp while a
+session is running -- the collected copies under seeded/ are what is committed)"""
+import glob
+import json
+import os
+import re
+import shutil
+import sys
+
+STAGED = ["/tmp/seed/staged", "/tmp/seed/staged2"]
+BENIGN = sorted(glob.glob("/tmp/benign/staged*"))
+OUT = "/verif/seeded"
+
+
+def parse_results(files):
+    det = {}
+    for f in files:
+        if not os.path.exists(f):
             continue
-        shutil.copy(os.path.join(staged, name, f), d)
-    meta = json.load(open(os.path.join(staged, name, "meta.json")))
-    meta["id"] = name
-    meta["breaks_property"] = name.split("-")[0]
-    meta["author"] = "independent sub-agent given only the property text and a scratch worktree"
-    meta["verified_in_scratch_worktree"] = dict(v, what_was_run=["git apply patch.diff", "cargo build --offline --workspace --exclude jaq-play", "cargo test --workspace --exclude jaq-play --no-fail-fast --offline (all test-result lines summed, doctests included)", "bash demo.sh <worktree> with the mutant (must fail)", "git checkout -- . ; bash demo.sh <worktree> (must pass)"])
-    dd = det.get(name, {})
-    caught = {c: r["rules"] for c, r in dd.items() if r["exit"] == 1}
-    meta["detection"] = {"checks_run": sorted(dd), "caught_by": caught, "missed": not caught, "how_run": "bin/mutants.sh: patch applied in a scratch worktree of /repo, ./check <Cxx> with JAQ_REPO pointing at it"}
-    json.dump(meta, open(os.path.join(d, "meta.json"), "w"), indent=1)
-    print(name, "caught" if caught else "MISSED", caught)
+        for l in open(f):
+            if ":" not in l:
+                continue
+            name, rest = l.strip().split(":", 1)
+            d = det.setdefault(name, {})
+            for m in re.finditer(r"(C\d+)=exit(\d)\[(.*?)\]", rest):
+                d[m.group(1)] = {"exit": int(m.group(2)), "rules": [x for x in m.group(3).split(",") if x]}
+            if "PATCH DOES NOT APPLY" in rest:
+                d["_error"] = "patch does not apply"
+    return det
+
+
+def main():
+    res = sys.argv[1:]
+    det = parse_results(res)
+    os.makedirs(OUT, exist_ok=True)
+    rows = []
+    for sd in STAGED:
+        for d in sorted(glob.glob(os.path.join(sd, "C*-m*"))):
+            name = os.path.basename(d)
+            vl = os.path.join(d, "verify.log")
+            v = None
+            if os.path.exists(vl):
+                for l in open(vl):
+                    m = re.match(r"(C\d+) (m\d+): tests\[(.*?)\] demo_with_mutant_exit=(\d+) demo_clean_exit=(\d+)", l)
+                    if m:
+                        v = {"tests_with_mutant": m.group(3), "demo_exit_with_mutant": int(m.group(4)), "demo_exit_on_clean_tree": int(m.group(5))}
+            if not v or v["demo_exit_with_mutant"] == 0 or v["demo_exit_on_clean_tree"] != 0 or " 0 failed" not in v["tests_with_mutant"]:
+                print("skip (not verified)", name, v)
+                continue
+            o = os.path.join(OUT, name)
+            shutil.rmtree(o, ignore_errors=True)
+            os.makedirs(o)
+            for f in os.listdir(d):
+                if f in ("verify.log", "checks", "test.log", "test.txt", "build.log") or os.path.isdir(os.path.join(d, f)):
+                    continue
+                shutil.copy(os.path.join(d, f), o)
+            meta = json.load(open(os.path.join(d, "meta.json")))
+            meta["id"] = name
+            meta["breaks_property"] = name.split("-")[0]
+            meta["author"] = "independent sub-agent given only the property text and a scratch worktree"
+            if os.path.exists(os.path.join(d, "base")):
+                meta["applies_to_commit"] = open(os.path.join(d, "base")).read().strip()
+            meta["verified_in_scratch_worktree"] = dict(v, what_was_run=["git apply patch.diff", "cargo build --offline --workspace --exclude jaq-play", "cargo test --workspace --exclude jaq-play --no-fail-fast --offline (all test-result lines summed, doctests included)", "bash demo.sh <worktree> with the change (must fail)", "git checkout -- . ; bash demo.sh <worktree> (must pass)"])
+            dd = {k: r for k, r in det.get(name, {}).items() if not k.startswith("_")}
+            caught = {c: r["rules"] for c, r in dd.items() if r["exit"] == 1}
+            own = name.split("-")[0]
+            meta["detection"] = {"checks_run": sorted(dd), "caught_by": caught, "caught_by_own_property_check": own in caught, "missed": not caught,
+                                 "how_run": "bin/mutants.sh: patch applied in a scratch worktree of /repo, ./check <Cxx> with JAQ_REPO pointing at it"}
+            json.dump(meta, open(os.path.join(o, "meta.json"), "w"), indent=1)
+            rows.append((name, meta.get("summary", ""), meta.get("needs_to_manifest", ""), caught))
+            print(name, "caught" if caught else "MISSED", caught)
+    bo = os.path.join(OUT, "benign")
+    os.makedirs(bo, exist_ok=True)
+    brow = []
+    for sd in BENIGN:
+        for d in sorted(glob.glob(os.path.join(sd, "B*-b*"))):
+            name = os.path.basename(d)
+            o = os.path.join(bo, name)
+            shutil.rmtree(o, ignore_errors=True)
+            os.makedirs(o)
+            for f in ("patch.diff", "meta.json"):
+                if os.path.exists(os.path.join(d, f)):
+                    shutil.copy(os.path.join(d, f), o)
+            meta = json.load(open(os.path.join(o, "meta.json")))
+            dd = {k: r for k, r in det.get(name, {}).items() if not k.startswith("_") and k.startswith("C")}
+            alarms = {c: r["rules"] for c, r in dd.items() if r["exit"] == 1}
+            meta["id"] = name
+            meta["author"] = "independent sub-agent asked for a behaviour-preserving change (all 20 property texts given), full test suite passing"
+            meta["checks"] = {"run": sorted(dd), "alarms": alarms}
+            json.dump(meta, open(os.path.join(o, "meta.json"), "w"), indent=1)
+            brow.append((name, meta.get("summary", ""), alarms))
+    json.dump({"seeded": [{"id": a, "summary": b, "needs": c, "caught_by": d} for a, b, c, d in rows],
+               "benign": [{"id": a, "summary": b, "alarms": c} for a, b, c in brow]}, open(os.path.join(OUT, "INDEX.json"), "w"), indent=1)
+    print(len(rows), "seeded,", len(brow), "benign")
+
+
+main()
